@@ -241,12 +241,12 @@ def search(ctx):
     # position whose largest separation straddles 30 largest-radii, in random orientations and member orders
     for i in range(ctx.n(150, 1500)):
         m = int(rng.integers(2, 8))
-        rmax = float(rng.uniform(0.1, 0.6))
+        rmax = float(rng.uniform(0.1, 0.6)) * float(10.0 ** rng.integers(-6, 7) if i % 2 else 1.0)     # any unit of length
         rs = [rmax] + [float(rng.uniform(0.3, 1.0)) * rmax for _ in range(m - 1)]
         target = 30 * rmax * float(rng.choice([0.5, 0.8, 0.95, 0.99, 1.01, 1.05, 1.3]))
         pts = rng.normal(size=(m, 3)) * np.array([1.0, 1.0, float(rng.choice([0.05, 1.0]))])
         dmax = max(np.linalg.norm(pts[a] - pts[b]) for a in range(m) for b in range(a + 1, m))
-        pts = pts * (target / dmax) + rng.uniform(-3, 3, size=3)
+        pts = pts * (target / dmax) + rng.uniform(-3, 3, size=3) * rmax
         order = rng.permutation(m)
         members = [Sphere(n=1.5, r=rs[j], center=tuple(float(v) for v in pts[j])) for j in order]
         dmax = max(np.linalg.norm(pts[a] - pts[b]) for a in range(m) for b in range(a + 1, m))
